@@ -151,11 +151,16 @@ template <int DIM>
 struct WaypointCostP {
   double w0 = 0, w1 = 0, kappa = 0, mu = 0, omega = 1;  // sum 1/2 (w0 + w1*(i%2)) |q_i - r_i|^2 + kappa sum <q_i,q_{i+1}> + mu sum_i sum_d sin(omega q_id)
   double r0 = 0.5;
+  // linear deviation from a reference set of waypoints:  lin * sum_i sum_d s(i,d) (q_id - ref_id).  It vanishes EXACTLY at the reference
+  // (e.g. at the initial guess) while its gradient does not (a "skip when the cost is zero" shortcut shows only there)
+  double lin = 0;
+  Eigen::MatrixXd ref;
   int bad_row = -1, bad_col = 0; double bad_delta = 0;
   template <class W, class G>
   double operator()(const W& q, G& grad) const {
     double v = 0;
     const int n = (int)q.rows();
+    const bool use_lin = lin != 0 && ref.rows() == q.rows() && ref.cols() == q.cols();
     for (int i = 0; i < n; ++i)
       for (int d = 0; d < DIM; ++d) {
         double wi = w0 + w1 * (double)(i % 2);
@@ -165,6 +170,7 @@ struct WaypointCostP {
         v += 0.5 * wi * e * e + mu * std::sin(omega * q(i, d));
         if (i + 1 < n) { v += kappa * q(i, d) * q(i + 1, d); g += kappa * q(i + 1, d); }
         if (i > 0) g += kappa * q(i - 1, d);
+        if (use_lin) { double sgn = (double)((i + 2 * d) % 3 - 1) + 0.5; v += lin * sgn * (q(i, d) - ref(i, d)); g += lin * sgn; }
         grad(i, d) = g;
       }
     if (bad_row >= 0 && bad_row < n) grad(bad_row, bad_col % DIM) += bad_delta;
@@ -240,6 +246,9 @@ template <int DIM>
 inline WaypointCostP<DIM> gen_waypoint_cost(Tape& t) {
   WaypointCostP<DIM> c;
   c.w0 = t.range(0, 8) / 4.0; c.w1 = t.range(0, 4) / 4.0; c.kappa = t.sym(8) / 8.0; c.mu = t.sym(8) / 4.0; c.omega = (1 + t.range(0, 7)) / 4.0; c.r0 = t.sym(8) / 4.0;
+  int lm = t.pickw({4, 2, 2});   // no linear-deviation term / in addition / ONLY the linear-deviation term (value exactly 0 at the reference)
+  if (lm >= 1) { int k = t.sym(8); c.lin = (k == 0 ? 3 : k) / 4.0; }
+  if (lm == 2) { c.w0 = c.w1 = c.kappa = c.mu = 0; }
   return c;
 }
 template <int DIM>
